@@ -481,6 +481,70 @@ Proof.
   lra.
 Qed.
 
+Definition floorP (v : vec RF) : Prop := forall a, In a pre -> @alpha RF / INR (length pre) <= V v a.
+
+Lemma iterate_inv : forall fuel iter v, dist v -> (fuel = O -> floorP v) ->
+  dist (fst (@iterate RF nodes ks pre es wes fuel iter v)) /\
+  floorP (fst (@iterate RF nodes ks pre es wes fuel iter v)).
+Proof.
+  induction fuel as [|k IH]; intros iter v Hd Hf.
+  - cbn [iterate fst]. split; [assumption|apply Hf; reflexivity].
+  - cbn [iterate].
+    pose proof (round_dist v Hd) as Hd'.
+    assert (Hf' : floorP (fst (@round RF nodes ks pre es wes v))) by (intros a Ha; apply round_anchor_floor; assumption).
+    destruct (@round RF nodes ks pre es wes v) as [nv diff] eqn:Er. cbn [fst] in Hd', Hf'.
+    destruct (@ltb RF diff (@conv_thr RF)); [cbn [fst]; split; assumption|].
+    destruct ((TRUST_CUT1_N <? N.of_nat (length nodes))%N && (TRUST_CUT1_ITER <? iter)%N); [cbn [fst]; split; assumption|].
+    destruct ((TRUST_CUT2_N <? N.of_nat (length nodes))%N && (TRUST_CUT2_ITER <? iter)%N); [cbn [fst]; split; assumption|].
+    apply IH; [assumption|intros _; assumption].
+Qed.
+
+(* the starting vector *)
+Lemma init_vec_V : forall i, V (@init_vec RF nodes) i = if memN i nodes then 1 / INR (length nodes) else 0.
+Proof. intro i. unfold V, init_vec, nF. rewrite vget_map_keys, of_N_R_nat. reflexivity. Qed.
+
+Lemma Rsum_mem_all : forall (l s : list N) (c : R), NoDup l -> NoDup s -> incl s l ->
+  Rsum (map (fun i => if memN i s then c else 0) l) = INR (length s) * c.
+Proof. intros. apply Rsum_mem_const; assumption. Qed.
+
+Lemma init_vec_dist : dist (@init_vec RF nodes).
+Proof.
+  pose proof length_nodes_pos as Hn. split.
+  - intro i. rewrite init_vec_V. destruct (memN i nodes); [|lra]. apply Rlt_le, Rdiv_lt_0_compat; lra.
+  - rewrite (Rsum_map_ext _ (fun i => if memN i nodes then 1 / INR (length nodes) else 0)) by (intros; apply init_vec_V).
+    rewrite Rsum_mem_const by assumption. field. lra.
+Qed.
+
+(* anything a round establishes holds of the loop's result *)
+Lemma iterate_est : forall (P : vec RF -> Prop),
+  (forall v, dist v -> P (fst (@round RF nodes ks pre es wes v))) ->
+  forall fuel iter v, dist v -> (fuel = O -> P v) -> P (fst (@iterate RF nodes ks pre es wes fuel iter v)).
+Proof.
+  intros P HP. induction fuel as [|k IH]; intros iter v Hd Hf.
+  - cbn [iterate fst]. apply Hf; reflexivity.
+  - cbn [iterate]. pose proof (round_dist v Hd) as Hd'. pose proof (HP v Hd) as Hp.
+    destruct (@round RF nodes ks pre es wes v) as [nv diff] eqn:Er. cbn [fst] in Hd', Hp.
+    destruct (@ltb RF diff (@conv_thr RF)); [exact Hp|].
+    destruct ((TRUST_CUT1_N <? N.of_nat (length nodes))%N && (TRUST_CUT1_ITER <? iter)%N); [exact Hp|].
+    destruct ((TRUST_CUT2_N <? N.of_nat (length nodes))%N && (TRUST_CUT2_ITER <? iter)%N); [exact Hp|].
+    apply IH; [assumption|intros _; assumption].
+Qed.
+
+(* the vector is an association list over exactly the keys *)
+Definition canon (v : vec RF) : Prop := v = map (fun i => (i, V v i)) ks.
+
+Lemma canon_map : forall g : N -> R, canon (map (fun i => (i, g i)) ks).
+Proof.
+  intro g. unfold canon. apply map_ext_in. intros i Hi. unfold V. rewrite vget_map_keys.
+  apply memN_In in Hi. rewrite Hi. reflexivity.
+Qed.
+
+Lemma round_canon : forall v, dist v -> canon (fst (@round RF nodes ks pre es wes v)).
+Proof.
+  intros v Hd. unfold round. cbn [fst]. rewrite raw_round_R, normalise_unit by (apply rawf_total; assumption).
+  apply canon_map.
+Qed.
+
 (* ---- closed sets: mass can only leak out ---- *)
 Section Closed.
 Variable Sy : list N.
@@ -554,5 +618,264 @@ Proof.
   apply Rsum_map_le. intros i _. apply Rle_abs.
 Qed.
 
+
+(* ---- the whole loop ---- *)
+Lemma pow_S_shift : forall (x : R) (a b : N), (b + 1 <= a)%N ->
+  x ^ N.to_nat (a - b) = x * x ^ N.to_nat (a - (b + 1)).
+Proof.
+  intros x a b H. replace (N.to_nat (a - b)) with (S (N.to_nat (a - (b + 1)))) by lia. reflexivity.
+Qed.
+
+Definition exit_reason (fuel : nat) (iter : N) (r : vec RF * N) : Prop :=
+  (fuel <> O /\ massR (fst r) < 3 / 2 * @conv_thr RF)
+  \/ ((TRUST_CUT1_N < N.of_nat (length nodes))%N /\ (TRUST_CUT1_ITER + 2 <= snd r)%N)
+  \/ ((TRUST_CUT2_N < N.of_nat (length nodes))%N /\ (TRUST_CUT2_ITER + 2 <= snd r)%N)
+  \/ snd r = (iter + N.of_nat fuel)%N.
+
+Lemma iterate_spec : forall fuel iter v, dist v ->
+  let r := @iterate RF nodes ks pre es wes fuel iter v in
+  dist (fst r) /\ (iter <= snd r <= iter + N.of_nat fuel)%N /\ (fuel <> O -> (iter < snd r)%N) /\
+  massR (fst r) <= (1 - @alpha RF) ^ N.to_nat (snd r - iter) * massR v /\
+  exit_reason fuel iter r.
+Proof.
+  induction fuel as [|k IH]; intros iter v Hd.
+  - cbn [iterate fst snd]. split; [assumption|]. split; [lia|]. split; [intro H; contradiction|]. split.
+    + replace (N.to_nat (iter - iter)) with O by lia. rewrite pow_O. lra.
+    + unfold exit_reason. right. right. right. cbn [snd]. lia.
+  - cbn [iterate].
+    pose proof (round_dist v Hd) as Hd'. pose proof (round_mass_decay v Hd) as Hm.
+    pose proof (round_diff_ge v Hd) as Hdiff.
+    destruct (@round RF nodes ks pre es wes v) as [nv diff] eqn:Er. cbn [fst snd] in Hd', Hm, Hdiff.
+    assert (Hone : massR nv <= (1 - @alpha RF) ^ N.to_nat (iter + 1 - iter) * massR v).
+    { replace (N.to_nat (iter + 1 - iter)) with 1%nat by lia. rewrite pow_1. lra. }
+    destruct (@ltb RF diff (@conv_thr RF)) eqn:Ec.
+    { cbn [fst snd]. split; [assumption|]. split; [lia|]. split; [intros _; lia|]. split; [assumption|].
+      left. split; [discriminate|]. cbn [fst]. apply ltb_R_true in Ec. rewrite alpha_R in Hm. lra. }
+    destruct ((TRUST_CUT1_N <? N.of_nat (length nodes))%N && (TRUST_CUT1_ITER <? iter)%N) eqn:E1.
+    { cbn [fst snd]. split; [assumption|]. split; [lia|]. split; [intros _; lia|]. split; [assumption|].
+      right. left. cbn [snd]. apply andb_true_iff in E1. destruct E1 as [A B].
+      apply N.ltb_lt in A. apply N.ltb_lt in B. lia. }
+    destruct ((TRUST_CUT2_N <? N.of_nat (length nodes))%N && (TRUST_CUT2_ITER <? iter)%N) eqn:E2.
+    { cbn [fst snd]. split; [assumption|]. split; [lia|]. split; [intros _; lia|]. split; [assumption|].
+      right. right. left. cbn [snd]. apply andb_true_iff in E2. destruct E2 as [A B].
+      apply N.ltb_lt in A. apply N.ltb_lt in B. lia. }
+    specialize (IH (iter + 1)%N nv Hd'). cbv zeta in IH.
+    destruct IH as [I1 [I2 [I3 [I4 I5]]]].
+    set (r := @iterate RF nodes ks pre es wes k (iter + 1) nv) in *.
+    split; [assumption|]. split; [lia|]. split; [intros _; lia|]. split.
+    + rewrite (pow_S_shift _ (snd r) iter) by lia.
+      pose proof alpha_bounds. pose proof (massR_nonneg v Hd).
+      assert (0 <= (1 - @alpha RF) ^ N.to_nat (snd r - (iter + 1))) by (apply pow_le; lra).
+      eapply Rle_trans; [exact I4|].
+      replace ((1 - @alpha RF) * (1 - @alpha RF) ^ N.to_nat (snd r - (iter + 1)) * massR v)
+        with ((1 - @alpha RF) ^ N.to_nat (snd r - (iter + 1)) * ((1 - @alpha RF) * massR v)) by ring.
+      apply Rmult_le_compat_l; [assumption|exact Hm].
+    + unfold exit_reason in *. destruct I5 as [[A B]|[A|[A|A]]].
+      * left. split; [discriminate|assumption].
+      * right. left. assumption.
+      * right. right. left. assumption.
+      * right. right. right. lia.
+Qed.
+
+Lemma init_mass : massR (@init_vec RF nodes) = INR (length Sy) / INR (length nodes).
+Proof.
+  unfold massR. rewrite (Rsum_map_ext _ (fun _ => 1 / INR (length nodes))).
+  - rewrite Rsum_map_const. pose proof length_nodes_pos. field. lra.
+  - intros i Hi. rewrite init_vec_V. assert (memN i nodes = true) as -> by (apply memN_In, HSn, Hi). reflexivity.
+Qed.
+
 End Closed.
 End RoundR.
+
+(* ------------------------------------------------------------------ states *)
+Definition wf (st : state RF) : Prop := NoDup (st_pre st).
+
+Lemma NoDup_app_disj : forall {A} (a b : list A),
+  NoDup a -> NoDup b -> (forall x, In x a -> ~ In x b) -> NoDup (a ++ b).
+Proof.
+  induction a as [|x a IH]; intros b Ha Hb Hd; simpl; [assumption|]. inversion Ha; subst. constructor.
+  - intro H. apply in_app_or in H. destruct H; [contradiction|]. apply (Hd x); [now left|assumption].
+  - apply IH; try assumption. intros y Hy. apply Hd. now right.
+Qed.
+
+Section StateFacts.
+Variable st : state RF.
+Hypothesis Hwf : wf st.
+Hypothesis Hne : @node_set RF st <> [].
+
+Let nodes := @node_set RF st.
+Let ks := @keys RF st.
+Let pre := st_pre st.
+Let es := @pos_edges RF (st_local st).
+
+Lemma sf_nodes : NoDup nodes. Proof. apply dedupN_NoDup. Qed.
+
+Lemma sf_ks : NoDup ks.
+Proof.
+  unfold ks, keys. apply NoDup_app_disj; [apply dedupN_NoDup|apply NoDup_filter; exact Hwf|].
+  intros x Hx Hx'. unfold extra_anchors in Hx'. apply filter_In in Hx'. destruct Hx' as [_ E].
+  apply negb_true_iff, memN_false in E. contradiction.
+Qed.
+
+Lemma sf_nk : incl nodes ks. Proof. intros x Hx. unfold ks, keys. apply in_or_app. now left. Qed.
+
+Lemma sf_pk : incl pre ks.
+Proof.
+  intros a Ha. unfold ks, keys. apply in_or_app. destruct (memN a (@node_set RF st)) eqn:E.
+  - left. apply memN_In. assumption.
+  - right. unfold extra_anchors. apply filter_In. split; [assumption|]. rewrite E. reflexivity.
+Qed.
+
+Lemma sf_nopre : pre = [] -> ks = nodes.
+Proof. intro H. unfold ks, keys, extra_anchors. fold pre. rewrite H. simpl. apply app_nil_r. Qed.
+
+Lemma sf_pos : forall e, In e es -> 0 < e_val e.
+Proof. intros e He. unfold es, pos_edges in He. apply filter_In in He. destruct He as [_ E]. apply ltb_R_true in E. exact E. Qed.
+
+Lemma sf_ends : forall e, In e es -> In (e_from e) ks /\ In (e_to e) ks.
+Proof.
+  intros e He. unfold es, pos_edges in He. apply filter_In in He. destruct He as [He _].
+  assert (forall x, In x [e_from e; e_to e] -> In x nodes).
+  { intros x Hx. unfold nodes, node_set. apply dedupN_In. apply in_or_app. left.
+    apply in_flat_map. exists e. split; assumption. }
+  split; apply sf_nk, H; simpl; tauto.
+Qed.
+
+Definition tv : vec RF := fst (@power RF st).
+
+Ltac sf_solve := first [exact sf_nodes|exact Hne|exact sf_ks|exact sf_nk|exact Hwf|exact sf_pk|exact sf_nopre|exact sf_pos|exact sf_ends].
+
+Lemma sf_init : dist ks (@init_vec RF nodes).
+Proof. apply init_vec_dist; sf_solve. Qed.
+
+Lemma fuel_nonzero : N.to_nat TRUST_MAX_ITERATIONS = O -> forall P : Prop, P.
+Proof. unfold TRUST_MAX_ITERATIONS. intro H. discriminate. Qed.
+
+Lemma tv_dist : dist ks tv.
+Proof.
+  unfold tv, power. fold nodes ks pre es.
+  apply iterate_inv; try sf_solve; [apply sf_init|intro H; apply (fuel_nonzero H)].
+Qed.
+
+Lemma tv_floor : forall a, In a pre -> @alpha RF / INR (length pre) <= V tv a.
+Proof.
+  unfold tv, power. fold nodes ks pre es.
+  apply iterate_inv; try sf_solve; [apply sf_init|intro H; apply (fuel_nonzero H)].
+Qed.
+
+Lemma tv_canon : canon ks tv.
+Proof.
+  unfold tv, power. fold nodes ks pre es.
+  apply (iterate_est nodes ks pre es) with (P := canon ks); try sf_solve.
+  - intros v Hd. apply round_canon; try sf_solve. assumption.
+  - apply sf_init.
+  - intro H; apply (fuel_nonzero H).
+Qed.
+
+End StateFacts.
+
+(* ------------------------------------------------------------------ multi-factor multiplier *)
+Lemma Rinv_nonneg : forall b, 0 <= b -> 0 <= / b.
+Proof.
+  intros b Hb. destruct (Req_dec b 0) as [->|Hn]; [rewrite Rinv_0; lra|].
+  apply Rlt_le, Rinv_0_lt_compat. lra.
+Qed.
+
+Lemma Rdiv_nonneg : forall a b, 0 <= a -> 0 <= b -> 0 <= a / b.
+Proof. intros. unfold Rdiv. apply Rmult_le_pos; [assumption|apply Rinv_nonneg; assumption]. Qed.
+
+Lemma of_Q_R_nonneg : forall q, 0 <= @of_Q RF q.
+Proof. intro q. unfold of_Q. cbn [div RF]. apply Rdiv_nonneg; apply of_N_R_nonneg. Qed.
+
+Lemma Rdiv_le_cross : forall a b c d, 0 < b -> 0 < d -> a * d <= c * b -> a / b <= c / d.
+Proof.
+  intros a b c d Hb Hd H. apply (Rmult_le_reg_r (b * d)); [apply Rmult_lt_0_compat; assumption|].
+  replace (a / b * (b * d)) with (a * d) by (field; lra).
+  replace (c / d * (b * d)) with (c * b) by (field; lra). assumption.
+Qed.
+
+Definition rrR (s : nstat) : R := @response_rate RF s.
+
+Lemma default_rate_R : @of_Q RF TRUST_MF_DEFAULT_RATE = 1 / 2.
+Proof. unfold of_Q, TRUST_MF_DEFAULT_RATE. cbn. lra. Qed.
+
+Lemma rr_bounds : forall s, 0 <= rrR s <= 1.
+Proof.
+  intro s. unfold rrR, response_rate. destruct (0 <? s_ok s + s_fail s)%N eqn:E.
+  - apply N.ltb_lt in E. pose proof (of_N_R_nonneg (s_ok s)). pose proof (of_N_R_nonneg (s_fail s)).
+    pose proof (of_N_R_pos _ E) as Hp. rewrite of_N_R_add in *. cbn [div RF]. split.
+    + apply Rdiv_nonneg; lra.
+    + apply (Rmult_le_reg_r (@of_N RF (s_ok s) + @of_N RF (s_fail s))); [assumption|].
+      unfold Rdiv. rewrite Rmult_assoc, Rinv_l by lra. lra.
+  - rewrite default_rate_R. lra.
+Qed.
+
+(* the response rate is monotone: more successes never lower it, more failures never raise it *)
+Lemma rr_mono : forall s s', (s_ok s <= s_ok s')%N -> (s_fail s' <= s_fail s)%N -> rrR s <= rrR s'.
+Proof.
+  intros s s' Hok Hfail. unfold rrR, response_rate.
+  pose proof (of_N_R_nonneg (s_ok s)) as A. pose proof (of_N_R_nonneg (s_fail s)) as B.
+  pose proof (of_N_R_nonneg (s_ok s')) as A'. pose proof (of_N_R_nonneg (s_fail s')) as B'.
+  pose proof (of_N_R_le _ _ Hok) as LA. pose proof (of_N_R_le _ _ Hfail) as LB.
+  destruct (0 <? s_ok s + s_fail s)%N eqn:E; destruct (0 <? s_ok s' + s_fail s')%N eqn:E'.
+  - apply N.ltb_lt in E. apply N.ltb_lt in E'. pose proof (of_N_R_pos _ E) as P. pose proof (of_N_R_pos _ E') as P'.
+    rewrite !of_N_R_add in *. cbn [div RF]. apply Rdiv_le_cross; try assumption.
+    assert (@of_N RF (s_ok s) * @of_N RF (s_fail s') <= @of_N RF (s_ok s') * @of_N RF (s_fail s)); [|lra].
+    apply Rmult_le_compat; assumption.
+  - apply N.ltb_ge in E'. assert (s_ok s = 0%N) as -> by lia. cbn [div RF of_N]. simpl Z.of_N.
+    rewrite default_rate_R. unfold Rdiv. rewrite Rmult_0_l. lra.
+  - apply N.ltb_ge in E. apply N.ltb_lt in E'. assert (s_fail s' = 0%N) as H0 by lia.
+    rewrite H0, N.add_0_r in *. pose proof (of_N_R_pos _ E'). rewrite default_rate_R. cbn [div RF].
+    unfold Rdiv. rewrite Rinv_r by lra. lra.
+  - lra.
+Qed.
+
+Section Factor.
+Variable ln1p : N -> R.
+Hypothesis Hln : forall x, 0 <= ln1p x.
+
+Definition restR (s : nstat) : R :=
+  @of_Q RF TRUST_MF_W_UPTIME * @fmin RF (@of_N RF (s_up s) / @of_Q RF TRUST_MF_UPTIME_DAY) (@of_Q RF TRUST_MF_UPTIME_CAP)
+  + @of_Q RF TRUST_MF_W_STORAGE * (ln1p (s_sto s) / @of_Q RF TRUST_MF_LOG_DIV_STORAGE)
+  + @of_Q RF TRUST_MF_W_BANDWIDTH * (ln1p (s_bw s) / @of_Q RF TRUST_MF_LOG_DIV_BANDWIDTH)
+  + @of_Q RF TRUST_MF_W_COMPUTE * (ln1p (s_cpu s) / @of_Q RF TRUST_MF_LOG_DIV_COMPUTE).
+
+Lemma factor_split : forall s, @factor RF ln1p s = @of_Q RF TRUST_MF_W_RATE * rrR s + restR s.
+Proof. intro s. unfold factor, restR, rrR. cbn [add mul div RF T]. ring. Qed.
+
+Lemma fmin_nonneg : forall a b : R, 0 <= a -> 0 <= b -> 0 <= @fmin RF a b.
+Proof. intros a b Ha Hb. unfold fmin. destruct (@ltb RF b a); assumption. Qed.
+
+Lemma restR_nonneg : forall s, 0 <= restR s.
+Proof.
+  intro s. unfold restR.
+  assert (forall w a q, 0 <= a -> 0 <= @of_Q RF w * (a / @of_Q RF q)).
+  { intros. apply Rmult_le_pos; [apply of_Q_R_nonneg|apply Rdiv_nonneg; [assumption|apply of_Q_R_nonneg]]. }
+  assert (0 <= @of_Q RF TRUST_MF_W_UPTIME * @fmin RF (@of_N RF (s_up s) / @of_Q RF TRUST_MF_UPTIME_DAY) (@of_Q RF TRUST_MF_UPTIME_CAP)).
+  { apply Rmult_le_pos; [apply of_Q_R_nonneg|]. apply fmin_nonneg; [|apply of_Q_R_nonneg].
+    apply Rdiv_nonneg; [apply of_N_R_nonneg|apply of_Q_R_nonneg]. }
+  pose proof (H TRUST_MF_W_STORAGE _ TRUST_MF_LOG_DIV_STORAGE (Hln (s_sto s))).
+  pose proof (H TRUST_MF_W_BANDWIDTH _ TRUST_MF_LOG_DIV_BANDWIDTH (Hln (s_bw s))).
+  pose proof (H TRUST_MF_W_COMPUTE _ TRUST_MF_LOG_DIV_COMPUTE (Hln (s_cpu s))). lra.
+Qed.
+
+Lemma factor_nonneg : forall s, 0 <= @factor RF ln1p s.
+Proof.
+  intro s. rewrite factor_split. pose proof (restR_nonneg s). pose proof (rr_bounds s).
+  assert (0 <= @of_Q RF TRUST_MF_W_RATE * rrR s) by (apply Rmult_le_pos; [apply of_Q_R_nonneg|lra]). lra.
+Qed.
+
+(* the multiplier is monotone in the response counters (everything else equal) *)
+Lemma factor_mono : forall s s',
+  s_up s' = s_up s -> s_sto s' = s_sto s -> s_bw s' = s_bw s -> s_cpu s' = s_cpu s ->
+  (s_ok s <= s_ok s')%N -> (s_fail s' <= s_fail s)%N ->
+  @factor RF ln1p s <= @factor RF ln1p s'.
+Proof.
+  intros s s' E1 E2 E3 E4 Hok Hfail. rewrite !factor_split.
+  assert (restR s' = restR s) as -> by (unfold restR; rewrite E1, E2, E3, E4; reflexivity).
+  pose proof (rr_mono s s' Hok Hfail). pose proof (of_Q_R_nonneg TRUST_MF_W_RATE).
+  assert (@of_Q RF TRUST_MF_W_RATE * rrR s <= @of_Q RF TRUST_MF_W_RATE * rrR s') by (apply Rmult_le_compat_l; assumption).
+  lra.
+Qed.
+
+End Factor.
